@@ -16,6 +16,8 @@ METHODS = ['symbolic_expressions_at', 'symbolic_expressions_at_offset']
 
 def run(ctx):
     g = gtirb_from_repo.load()
+    import lookups as _lkr
+    _lkr.repeated_events(ctx, g, 'symexpr-lookup')
     import lookups as _lkd
     _lkd.deferred_consumption(ctx, g, 'expressions', 'symexpr-lookup:deferred')
     import lookups as _lk
